@@ -136,3 +136,51 @@ package forwarder
 //@     assert [noqer]   qer == nil ==> len(arg0) == 12 + len(pkt) && arg0[11] == 0
 //@     assert [qer]     qer != nil ==> len(arg0) == 16 + len(pkt) && arg0[11] == 0x85 && arg0[12] == 1 && arg0[13] == 0 && arg0[14] == qer.QFI && arg0[15] == 0
 //@     assert [payload] forall j int :: 0 <= j && j < len(pkt) ==> arg0[len(arg0) - len(pkt) + j] == pkt[j]
+
+// Release of buffered packets when a FAR leaves the buffering state (C13).  Packets are popped for exactly the
+// (SEID, PDR) pairs of the FAR that was buffering, each popped packet is written once, with the first QER of the PDR
+// that carries a QoS flow (QFI != 0), towards that FAR's tunnel; on DROP nothing is written.
+// A-PKTLEN / A-QFI6 (assumed): a buffered packet fits a UDP datagram; a QFI read back from the kernel has six bits.
+//@ func (g *Gtp5g) applyAction(lSeid uint64, farid int, action report.ApplyAction)
+//@   requires g != nil && g.link != nil && g.link.conn != nil && g.bsnl != nil && g.bsnl.handler != nil
+//@   modifies nothing
+//@   serves C13 C07
+//@   loop range(far.PDRIDs):
+//@     modifies nothing
+//@   loop for():
+//@     modifies nothing
+//@   loop range(far.PDRIDs)#2:
+//@     modifies nothing
+//@   loop range(pdr.QERID):
+//@     modifies nothing
+//@     invariant [qfi] qer != nil ==> qer.QFI != 0
+//@   loop for()#2:
+//@     modifies nothing
+//@     invariant [qfi] qer != nil ==> qer.QFI != 0
+//@   at call GetFAROID:
+//@     assert [oid]  len(arg2) == 2 && arg2[0] == lSeid && arg2[1] == uint64(farid)
+//@   at call Pop#1:
+//@     assert [drop] action.Flags & 1 != 0 && far.Action & report.APPLY_ACT_BUFF != 0 && arg0 == lSeid
+//@   at call Pop#2:
+//@     assert [forw] action.Flags & 1 == 0 && action.Flags & 2 != 0 && far.Action & report.APPLY_ACT_BUFF != 0 && arg0 == lSeid && arg1 == pdrid
+//@   at call GetPDROID:
+//@     assert [oid]  len(arg2) == 2 && arg2[0] == lSeid && arg2[1] == uint64(pdrid)
+//@   at call GetQEROID:
+//@     assert [oid]  len(arg2) == 2 && arg2[0] == lSeid && arg2[1] == uint64(qerId)
+//@   at call WritePacket:
+//@     assume [A-PKTLEN] len(arg2) <= 65000
+//@     assume [A-QFI6]   arg1 != nil ==> arg1.QFI <= 63
+//@     assert [far]   arg0 == far && action.Flags & 1 == 0 && action.Flags & 2 != 0
+//@     assert [qfi]   arg1 != nil ==> arg1.QFI != 0
+//@     assert [pkt]   arg2 == pkt
+
+// Update FAR: the FAR whose buffered packets are released is the FAR named by the IE, wherever its FAR ID child stands.
+//@ func (g *Gtp5g) UpdateFAR(lSeid uint64, req *ie.IE) (err error)
+//@   requires g != nil && g.link != nil && g.link.conn != nil && g.bsnl != nil && g.bsnl.handler != nil && req != nil
+//@   modifies *
+//@   serves C13 C02 C07
+//@   at call applyAction:
+//@     assert [seid]  arg0 == lSeid
+//@     assert [farid] forall j int :: idx < j && j < len(ies) ==> ies[j].Type != ie.FARID
+//@   at call UpdateFAROID:
+//@     assert [oid]   len(arg2) == 2 && arg2[0] == lSeid && arg2[1] == farid
